@@ -146,6 +146,8 @@ def classify(crate, d, fnidx_cache):
     lab = ','.join('%s:%s' % t for t in f.tags) or f.clause
     f.key = '|'.join(['verus', f.file.replace('src/', ''), f.fn, f.kind, f.site if f.kind != 'postcondition' else '', lab])
     f.props = set(p for p, _ in f.tags) | P.default_props(f.file.replace('src/', ''), f.fn, f.kind)
+    if not f.props:
+        f.props = P.fallback_props(f.file.replace('src/', ''))
     return f
 
 def air_obligations(log_dir):
